@@ -64,6 +64,19 @@ def weights_of(h, P0, Mp, names):
     return W
 
 
+def _fdet(M):
+    n = len(M)
+    if n == 1:
+        return M[0][0]
+    tot = Fr(0)
+    for j in range(n):
+        if M[0][j] == 0:
+            continue
+        minor = [row[:j] + row[j + 1:] for row in M[1:]]
+        tot += (-1) ** j * M[0][j] * _fdet(minor)
+    return tot
+
+
 def support(W, v):
     return frozenset(a for a in range(W.shape[1]) if W[v, a] != 0)
 
@@ -129,18 +142,26 @@ def analyse(h, tag, m, M, k, names, marked=None, expect_children=None):
     if kind in ('line', 'tri', 'tet', 'quad'):
         for K, ch in children.items():
             mp_ = cell_measure(P0, t0v[:, K], kind)
-            if kind == 'quad' or marked is not None or kind == 'line':
+            if kind != 'quad' and (marked is not None or kind == 'line'):
+                # simplices: child vertices are (proved) constant affine combinations of the parent's vertices, so
+                # vol(child) = |det(weights)| vol(parent) for ALL geometries: exact rational arithmetic on the weights
+                tot = Fr(0)
+                okc = True
+                for c in ch:
+                    Wc = [[Fr(W[v, a]) for a in t0v[:, K]] for v in t1v[:, c]]
+                    dw = _fdet(Wc)
+                    okc = okc and dw != 0
+                    tot += abs(dw)
+                h.concrete('%s: children of cell %d are non-degenerate and their measures add up to its measure' % (tag, K),
+                           okc and tot == 1, 'sum of |det(weights)| = %s' % tot)
+            elif kind == 'quad':
                 tot = 0
                 for c in ch:
                     mc = cell_measure(P1, t1v[:, c], kind)
                     # children keep the orientation of the parent (no inverted cells) and are non-degenerate
                     h.valid('%s: child %d of cell %d has the orientation of its parent' % (tag, c, K), mc * mp_ > 0, kinds=('nlsat', 'default'))
                     tot = tot + mc
-                if kind == 'quad' or kind == 'line':
-                    h.zero('%s: measures of the children of cell %d add up to its measure' % (tag, K), tot - mp_)
-                else:
-                    # simplices may be re-oriented by sort_t: compare absolute values through the (proved) common sign
-                    h.zero('%s: |measures| of the children of cell %d add up' % (tag, K), tot * tot - mp_ * mp_)
+                h.zero('%s: measures of the children of cell %d add up to its measure' % (tag, K), tot - mp_)
             else:
                 for c in ch:
                     mc = cell_measure(P1, t1v[:, c], kind)
